@@ -11,8 +11,9 @@
 (*                       colour / link fragments with highlighting; the text parsed is their        *)
 (*                       concatenation)                                                             *)
 (*  kind "session": ONE history of print operations performed in one process (vectors of           *)
-(*     C07_History, or a seeded long one); objs = the objects (projection), steps = the operations  *)
-(*     in order: o = name of the object, cfg, out = the printed object, outcome / r = parsing back  *)
+(*     C07_History, or a seeded long one); vals = the distinct structures of the event (1 = none), *)
+(*     objs = the objects (name -> index in vals), steps = the operations in order: o = name of    *)
+(*     the object, cfg, out = the printed object, outcome / r = parsing back (index in vals)        *)
 (*     RoundTripParses, RoundTrip : on every step                                                   *)
 (*     PrintStable     : two steps with the same object and settings have the same out              *)
 (*  kind "hist": texts produced for one (term, settings) at different points of a history       *)
@@ -23,7 +24,7 @@ Again(e) == IF "out2" \in DOMAIN e /\ e.out2 # e.out THEN {"PrintStable"} ELSE {
 SameOp(a, b) == a.o = b.o /\ a.cfg = b.cfg
 SessionClauses(e) ==
   LET S == e.steps IN
-  UNION { RT(S[i], e.objs[S[i].o]) : i \in 1..Len(S) }
+  UNION { RT([outcome |-> S[i].outcome, r |-> e.vals[S[i].r]], e.vals[e.objs[S[i].o]]) : i \in 1..Len(S) }
   \cup (IF \A i \in 1..Len(S) : \A j \in 1..Len(S) : (i < j /\ SameOp(S[i], S[j])) => S[i].out = S[j].out THEN {} ELSE {"PrintStable"})
 ClausesOf(e) ==
   IF e.kind = "hist" THEN (IF \A i \in 1..Len(e.texts) : e.texts[i] = e.texts[1] THEN {} ELSE {"PrintIsFunction"})
